@@ -15,8 +15,8 @@ Interpolation (`_Interpolator._find_indices`, `_NearestInterpolator._evaluate`,
 The model follows the code as it is: the order of the `2^d` corner loop, the weight built
 up from `1` by left multiplication, the low/high out-of-range cases of the edge helpers.
 
-Sampling (`sampling_function`, `_make_dual_use_func`, `point_collocation`,
-`odl/util/vectorization.py::vectorize`): see the section `Sampling` below.
+Sampling (`sampling_function`, `_make_dual_use_func`, `point_collocation`): see
+`Model/Sampling.lean`.
 -/
 namespace OdlModel.Interp
 
@@ -248,47 +248,6 @@ def classifyArrayInput (d : Nat) (shape : List Nat) : Option (Bool × Nat) :=
     | [m] => if m = d then some (true, 1) else none
     | [m, n] => if m = d then some (false, n) else none
     | _ => none
-
-/-! ### Sampling: dispatch of `sampling_function` / `_make_dual_use_func`
-
-`_func_out_type` classifies the user's callable by its signature; `sampling_function` then
-completes the missing calling convention with `_default_ip` / `_default_oop`, and
-`dual_use_func` chooses the in-place or out-of-place variant depending on whether `out` was
-given.  The array expression `e : A` the user's code computes on the (mesh / array / point)
-input is a parameter, and so is NumPy's fitting `fit` of such an expression to the output
-shape (`out[:] = e`, `np.broadcast_to(e, out_shape)`, `reshape` between equal sizes, removal of
-a leading unit axis in 1d). -/
-
-inductive CallKind | oopOnly | dual | ipOnly
-  deriving Repr, DecidableEq
-
-/-- `_func_out_type`: `(has_out, out_optional)` ↦ which variants the callable provides. -/
-def callKind (hasOut outOptional : Bool) : CallKind :=
-  if !hasOut then .oopOnly else if outOptional then .dual else .ipOnly
-
-/-- Does the wrapper pass an `out` array to the USER's function?  (`oopOnly`: never —
-`func_ip = partial(_default_ip, func)` calls `func(x)` and assigns; `ipOnly`: always —
-`func_oop = partial(_default_oop, func)` allocates `out` and calls `func(x, out=out)`.) -/
-def userGetsOut : CallKind → Bool → Bool
-  | .oopOnly, _ => false
-  | .dual, outGiven => outGiven
-  | .ipOnly, _ => true
-
-section Sampling
-variable {A : Type} (fit : A → A)
-
-/-- The user's code: returns the expression, or writes it (fitted by NumPy assignment) to `out`. -/
-def userCall (withOut : Bool) (e : A) : A := if withOut then fit e else e
-
-/-- Result array of `dual_use_func(x, out)` for a callable of kind `k`. -/
-def sampleVia (k : CallKind) (outGiven : Bool) (e : A) : A :=
-  let r := userCall fit (userGetsOut k outGiven) e
-  match k, outGiven with
-  | .oopOnly, true => fit r            -- `_default_ip`: `out[:] = result` (reshaped or broadcast)
-  | .dual, true | .ipOnly, true => r   -- the user wrote into `out`
-  | _, false => fit r                  -- out-of-place post-processing: squeeze/reshape/`broadcast_to`
-
-end Sampling
 
 /-! ### Value dtypes (`_Interpolator._find_indices`)
 
